@@ -38,14 +38,24 @@ def cargo_env(extra=None):
 
 
 def run(cmd, cwd=None, env=None, timeout=None, check=False, capture=True):
+    """run a command in its own process group; on timeout the whole group is killed (cargo -> kani -> cbmc)"""
+    import signal
     t0 = uptime()
+    p = subprocess.Popen(cmd, cwd=cwd, env=env, text=True, start_new_session=True,
+                         stdout=subprocess.PIPE if capture else None, stderr=subprocess.STDOUT if capture else None)
     try:
-        p = subprocess.run(cmd, cwd=cwd, env=env, timeout=timeout, text=True,
-                           stdout=subprocess.PIPE if capture else None,
-                           stderr=subprocess.STDOUT if capture else None)
-        rc, out = p.returncode, p.stdout or ""
-    except subprocess.TimeoutExpired as e:
-        rc, out = 124, (e.stdout.decode() if isinstance(e.stdout, bytes) else (e.stdout or "")) + "\n[timeout]"
+        out, _ = p.communicate(timeout=timeout)
+        rc, out = p.returncode, out or ""
+    except subprocess.TimeoutExpired:
+        try:
+            os.killpg(p.pid, signal.SIGKILL)
+        except ProcessLookupError:
+            pass
+        try:
+            out, _ = p.communicate(timeout=10)
+        except Exception:
+            out = ""
+        rc, out = 124, (out or "") + "\n[timeout]"
     dt = uptime() - t0
     if check and rc != 0:
         log(out[-6000:])
